@@ -24,7 +24,7 @@ from vsim.tape import Tape, mix
 from vsim.world import World, dec, enc
 
 ID = "C11"
-RUNS = {"quick": 480, "thorough": 12000}
+RUNS = {"quick": 320, "thorough": 12000}
 WALL = {"quick": 1500, "thorough": 6 * 3600}
 
 STEP_CAP_BASE = 50_000_000      # >= 16x the largest count observed on the unchanged tree without many_funcs (3.1M)
